@@ -149,7 +149,8 @@ class LatexEncodingMiddleware(_PyStringTransformerMiddleware):
         try:
             return self._encoder.unicode_to_latex(python_string), ""
         except Exception as e:
-            return python_string, str(e)
+            # An exception without a message must still count as an error
+            return python_string, str(e) or repr(e)
 
 
 class LatexDecodingMiddleware(_PyStringTransformerMiddleware):
@@ -216,4 +217,5 @@ class LatexDecodingMiddleware(_PyStringTransformerMiddleware):
         try:
             return self._decoder.latex_to_text(python_string), ""
         except Exception as e:
-            return python_string, str(e)
+            # An exception without a message must still count as an error
+            return python_string, str(e) or repr(e)
